@@ -267,14 +267,16 @@ def run(ctx, args):
     e2e_stats = {"cases": len(cases), "shapes": len(run_shapes), "positions_covered": len(pos_cov), "runs": []}
     failures = {}   # case idx -> {opt: detail}
     progs = [cases[i:i + per_prog] for i in range(0, len(cases), per_prog)]
-    # C-to-C reference (validates the expected values and the C side with the host compilers)
-    ref_bad = 0
-    for pi, pcs in enumerate(progs):
-        ref_bad += reference_run(ctx, run_shapes, pcs, pi)
-    e2e_stats["reference_c_to_c_mismatches"] = ref_bad
-    if ref_bad:
-        ctx.report_broken("C09 reference: C-to-C calls (gcc callee / clang caller) do not reproduce the constructed values",
-                          {"mismatches": ref_bad})
+    # C-to-C reference (validates the expected values and the C side with the host compilers); runs beside the llgo builds
+    ref_res = {}
+
+    def _ref():
+        try:
+            ref_res["bad"] = sum(reference_run(ctx, run_shapes, pcs, pi) for pi, pcs in enumerate(progs))
+        except Exception as ex:  # noqa
+            ref_res["err"] = ex
+    ref_th = threading.Thread(target=_ref)
+    ref_th.start()
     configs = [("-O0", "clang-LLGoFiles"), ("-O2", "gcc-object")] if quick else \
         [("-O0", "clang-LLGoFiles"), ("-O2", "gcc-object"), ("-O2", "clang-LLGoFiles"), ("-O0", "gcc-object")]
     for pi, pcs in enumerate(progs):
@@ -288,6 +290,14 @@ def run(ctx, args):
                 failures.setdefault(k, {})[opt + "/" + cside] = detail
     ctx.log("e2e: %d cases in %d program(s); cases with a corrupted value: %d" % (len(cases), len(progs), len(failures)))
 
+    ref_th.join()
+    if "err" in ref_res:
+        raise ref_res["err"]
+    ref_bad = ref_res.get("bad", 0)
+    e2e_stats["reference_c_to_c_mismatches"] = ref_bad
+    if ref_bad:
+        ctx.report_broken("C09 reference: C-to-C calls (gcc callee / clang caller) do not reproduce the constructed values",
+                          {"mismatches": ref_bad})
     # judge every failing case; compare observation with the model's prediction
     by_idx = {c.idx: c for c in cases}
     n_known, n_pred_mism = 0, []
@@ -334,7 +344,7 @@ def run(ctx, args):
     e2e_stats["uncompilable_shapes"] = crash_stats
 
     # C strings end to end
-    e2e_stats["cstr_e2e"] = cstr_e2e(ctx, rng, 40 if quick else 300)
+    e2e_stats["cstr_e2e"] = cstr_e2e(ctx, rng, 40 if quick else 300, opts=(("-O2",) if quick else ("-O0", "-O2")))
     stats["e2e"] = e2e_stats
 
     # ---------------------------------------------------------------- verdict on proofs / correspondence
@@ -805,7 +815,7 @@ void sdone(int32_t k, int32_t a, int32_t b, int32_t c, int32_t n) { printf("S %d
 '''
 
 
-def cstr_e2e(ctx, rng, n):
+def cstr_e2e(ctx, rng, n, opts=("-O0", "-O2")):
     """Go string -> AllocaCStr -> C compares; C string -> GoString -> C compares (NUL-free byte strings)"""
     strs = [b for b in cstr_inputs(rng, n * 2) if 0 not in b and len(b) <= 120][:n]
     go_lit = ", ".join('"' + "".join("\\x%02x" % x for x in b) + '"' for b in strs)
@@ -817,7 +827,7 @@ def cstr_e2e(ctx, rng, n):
     if os.path.exists(os.path.join(REPO, "go.sum")):
         shutil.copy(os.path.join(REPO, "go.sum"), os.path.join(d, "go.sum"))
     res = {"cases": len(strs), "failures": 0}
-    for opt in ("-O0", "-O2"):
+    for opt in opts:
         p = e2e.llgo_build(ctx, d, os.path.join(d, "prog" + opt), opt=opt, timeout=1800)
         if p.returncode != 0:
             ctx.log("C-string e2e program does not build (%s): %s" % (opt, (p.stdout + p.stderr)[-600:]))
@@ -836,5 +846,5 @@ def cstr_e2e(ctx, rng, n):
                 res["failures"] += 1
                 ctx.report("cstr:e2e:%s:%s" % (opt, hexs(b)), "C string round trip (AllocaCStr / GoString) lost bytes at %s" % opt,
                            {"bytes": hexs(b), "got": got.get(i), "expected": exp, "opt": opt})
-    ctx.log("C strings (e2e AllocaCStr/GoString): %d strings x 2 opt levels, failures %d" % (len(strs), res["failures"]))
+    ctx.log("C strings (e2e AllocaCStr/GoString): %d strings x %s, failures %d" % (len(strs), "/".join(opts), res["failures"]))
     return res
